@@ -1,5 +1,6 @@
 import ApolloModel.Proofs.BuiltinScalars2
 import ApolloModel.Proofs.BuiltinScalars3
+import ApolloModel.Proofs.ValueCheckStable
 /-
 C16 — Validation is idempotent.
 
@@ -63,5 +64,44 @@ theorem value_lookup_stable (order : List Name → List Name) (ho : IsOrder orde
 theorem lookup_map_only_misses_pruned :
     lookupMapOnly demo "Int" = some builtinDef ∧ lookupMapOnly (bookkeeping id demo) "Int" = none ∧
       lookupForValue (bookkeeping id demo) "Int" = some builtinDef := by decide
+
+/-! ### growth 2: the value check itself (Model/ValueCheck.lean, property C14) -/
+
+/-- `value_of_correct_type` reads the schema only through its type lookup: two schemas with the same lookup give
+    the same diagnostics for every literal at every type reference (with any variable definitions). -/
+theorem value_check_reads_lookup_only (S S' : ValueCheck.Schema) (h : ∀ n, S.lookup n = S'.lookup n)
+    (vars : List ValueCheck.VarDef) (ty : ValueCheck.Ty) (v : ValueCheck.Value) :
+    ValueCheck.check S vars ty v = ValueCheck.check S' vars ty v :=
+  ValueCheck.check_congr S S' h vars v ty
+
+/-- **The value check is stable under validation.**  For every well-formed type map, every hash-set order, every
+    type reference and every literal, the full model of the value check (coercion per scalar, enums, lists, input
+    objects, custom scalars) yields the same diagnostics on the type map after a validation pass — pruned built-in
+    scalars included — as on the map before it.  `detail` is everything the value check looks at in the types
+    other than the built-in scalars (validation does not change it).  Hence `validate(s)` and
+    `validate(validate(s).into_inner())` agree on every directive-argument value. -/
+theorem value_check_stable (order : List Name → List Name) (ho : IsOrder order) (s : Schema) (wf : WellFormed s)
+    (hbuilt : ∀ e ∈ s.types, builtinScalars.contains e.1 = true → e.2.isBuiltIn = true)
+    (detail : Name → ValueCheck.TypeDef) (vars : List ValueCheck.VarDef) (ty : ValueCheck.Ty) (v : ValueCheck.Value) :
+    ValueCheck.check (valueSchema detail (bookkeeping order s)) vars ty v =
+      ValueCheck.check (valueSchema detail s) vars ty v :=
+  Scalars.value_check_stable order ho s wf hbuilt detail vars ty v
+
+/-- the verdict form, and the same after any number of passes -/
+theorem value_verdict_stable (order : List Name → List Name) (ho : IsOrder order) (s : Schema) (wf : WellFormed s)
+    (hbuilt : ∀ e ∈ s.types, builtinScalars.contains e.1 = true → e.2.isBuiltIn = true)
+    (detail : Name → ValueCheck.TypeDef) (ty : ValueCheck.Ty) (v : ValueCheck.Value) :
+    (ValueCheck.check (valueSchema detail (bookkeeping order s)) [] ty v = [] ↔
+      ValueCheck.check (valueSchema detail s) [] ty v = []) ∧
+    ValueCheck.check (valueSchema detail (bookkeeping order (bookkeeping order s))) [] ty v =
+      ValueCheck.check (valueSchema detail s) [] ty v := by
+  refine ⟨by rw [value_check_stable order ho s wf hbuilt], ?_⟩
+  rw [revalidate_fixpoint order ho s wf, value_check_stable order ho s wf hbuilt]
+
+-- Non-vacuity (the 99806f4 scenario on the full model): `Int` is pruned from `demo`, and an out-of-range integer
+-- for an `Int!` input field is still reported on the pruned map
+example : ValueCheck.check (valueSchema (fun n => if n == "In" then .input [⟨"f", .nonNullNamed "Int", false⟩] else .other)
+      (bookkeeping id { demo with types := demo.types ++ [("In", ⟨false, false, []⟩)] }))
+    [] (.named "In") (.object (.cons "f" (.int 123456789012) .nil)) = [.intCoercionError] := by decide
 
 end Apollo.C16
